@@ -311,8 +311,15 @@ func toValue(value interface{}) Value {
 	case *object:
 		return Value{kind: valueObject, value: value}
 	case *Object:
+		if value == nil || value.object == nil {
+			// what Value.Object() returns for a value that is not an object
+			return Value{}
+		}
 		return Value{kind: valueObject, value: value.object}
 	case Object:
+		if value.object == nil {
+			return Value{} // the zero Object
+		}
 		return Value{kind: valueObject, value: value.object}
 	case referencer: // reference is an interface (already a pointer)
 		return Value{kind: valueReference, value: value}
